@@ -158,6 +158,10 @@ def case_annotation(case):
         annot = "#[Qannotate::other]"
     elif form == "cfg_attr":
         annot = "#[cfg_attr(feature = \"x\", Qannotate)]"
+    elif form == "after_attr_same_line":
+        annot = "#[derive(Debug)] #[Qannotate]"
+    elif form == "after_doc_same_line":
+        annot = "/** doc */ #[Qannotate]"
     src = wrap_mods(item_src(kind, "Target", annot), depth) + "\n" + item_src("struct", "Plain", "") + "\n" + ("" if alone else item_src("alias", "Marked", "#[typeshare]") + "\n")
     res = {"paths": 0, "violations": [], "src": src}
     I = None
@@ -677,7 +681,7 @@ def run(rep, tier, only=None):
     mk = list(MARKERS.keys())
     ann_cases = [(k, d, f) for k in KINDS for d in (0, 1, 2) for f in ("path", "list", "qualified", "qualified_first", "cfg_attr")]
     ann_cases += [(k, pl, "path") for k in KINDS for pl in PLACES]
-    ann_cases += [(k, d, f, "alone") for k in KINDS for d in (0, 1) for f in ("path", "list", "qualified", "qualified_first")]
+    ann_cases += [(k, d, f, "alone") for k in KINDS for d in (0, 1) for f in ("path", "list", "qualified", "qualified_first", "after_attr_same_line", "after_doc_same_line")]
     word_cases = [(c, w) for c in ("struct", "unit_enum", "alg_enum", "struct_variant") for w in ("word", "attr", "attr9", "word_ts")]
     if tier == "quick":
         pairs = [(a, b) for a in mk for b in mk]
